@@ -6,7 +6,7 @@ import Enc.Lemmas.JsonCodecChoiceTerm
 -/
 set_option linter.unusedSimpArgs false
 namespace Enc.Lemmas.JsonCodecChoiceStd
-open Enc.Model.Json.CodecChoice Enc.Spec.Json.StdCodecChoice
+open Enc.Model.Json.CodecChoice Enc.Spec.Json.StdCodecChoice Enc.Lemmas.JsonCodecChoiceTerm
 
 theorem implPtr_ptrKind (env : Env) (m : Meth) (t : TD) (h : isPtrKind (under env t) = true) : implPtr env m t = false := by
   simp [implPtr, h]
@@ -115,32 +115,6 @@ theorem firstSwitch_sem (env : Env) (t : TD) (a : Bool) (c0 : Choice) (h : first
 
 abbrev intLabel := intKindLabel
 
-theorem under_ref_ne (env : Env) (id id' : Nat) : under env (.ref id) ≠ .ref id' := by
-  unfold under
-  cases hl : env.lookup id with
-  | none => simp [hl]
-  | some d => cases hd : d.under <;> simp [hl, hd]
-
-theorem under_ref_not_special (env : Env) (id : Nat) (sp : Special) : under env (.ref id) ≠ .special sp := by
-  unfold under
-  cases hl : env.lookup id with
-  | none => simp [hl]
-  | some d => cases hd : d.under <;> simp [hl, hd]
-
-/-- the types of an integer kind: time.Duration, the unnamed integer types, defined types with an integer underlying type -/
-theorem under_int_cases (env : Env) (k : TD) (hi : isIntKind (under env k) = true) :
-    (k = .special .duration) ∨ (∃ p, under env k = .prim p ∧ p ≠ .chan ∧ p ≠ .complex ∧ firstSwitch k = none) := by
-  cases k with
-  | special s => cases s <;> simp [under, isIntKind] at hi; left; rfl
-  | prim p => right; refine ⟨p, by simp [under], ?_, ?_, by simp [firstSwitch]⟩ <;> (intro h; subst h; simp [under, isIntKind] at hi)
-  | ref id =>
-    right
-    cases hu : under env (.ref id) <;> simp [hu, isIntKind] at hi
-    · rename_i p
-      refine ⟨p, rfl, ?_, ?_, by simp [firstSwitch]⟩ <;> (intro h; subst h; simp at hi)
-    · exact absurd hu (under_ref_not_special env id _)
-  | _ => simp [under, isIntKind] at hi
-
 /-- a type of an integer kind: the construction does not touch `seen` -/
 theorem intKind_seen (env : Env) (f : Nat) (k : TD) (a : Bool) (s s' : Seen) (c : Choice)
     (hi : isIntKind (under env k) = true) (h : codecF f env k a s = some (c, s')) : s' = s := by
@@ -180,10 +154,6 @@ theorem intCodec (env : Env) (f : Nat) (k : TD) (s s' : Seen) (c : Choice)
       simp at h
       rw [← h.1, hu]
       simp [marshalerOverride, hj, ht, intLabel, intKindLabel]
-
-theorem integerType_int (u : TD) (h : isIntKind u = true) : isIntKind (integerType u) = true := by
-  unfold isIntKind at h
-  split at h <;> simp_all [integerType, isIntKind]
 
 theorem stringCodec_seen (env : Env) (f : Nat) (k : TD) (s s' : Seen) (c : Choice)
     (hi : isIntKind (under env k) = true) (h : stringCodecF (codecF f env) env k s = some (c, s')) : s' = s := by
